@@ -84,7 +84,7 @@ class TypeGen:
             elif chance(d, 0.3):
                 c["exc_max"] = hi + 1
             if chance(d, 0.2):
-                c["mult_of"] = pick(d, [2, 3])
+                c["mult_of"] = pick(d, [2, 3] + ([0.5, 1.5] if self.cfg.get("float_mult_of") else []))
         elif kind == "str":
             lo = d(st.integers(0, 2))
             if chance(d, 0.4):
@@ -151,6 +151,7 @@ class TypeGen:
         kinds = ["str"] * 4 + ["int"] * 4 + ["float"] * 3 + ["bool"] * 2 + ["lit"] * 2 + ["newtype"] * 2
         kinds += ["annprim"] * 3 if self.cfg["constraints"] else []
         kinds += ["enum"] * 2 if self.cfg["enums"] else []
+        kinds += ["std"] * 3 if self.cfg.get("std") else []
         if not hashable:
             kinds += ["none"]
             kinds += ["any"] if self.cfg["any"] else []
@@ -170,6 +171,8 @@ class TypeGen:
             if self.prog["newtypes"] and chance(d, 0.3):
                 return {"k": "newtype", "i": d(st.integers(0, len(self.prog["newtypes"]) - 1))}
             return self.newtype()
+        if k == "std":
+            return {"k": "std", "t": pick(d, sorted(STD_VALID))}
         if k == "annprim":
             base = pick(d, ["str", "int", "float"])
             c = self.constraints(base)
@@ -537,8 +540,14 @@ def _on_stack(t: dict, stack) -> bool:
     return t["k"] == "cls" and t["i"] in stack
 
 
+# types converted by apischema/std_types.py (only where a check opts in with cfg["std"]): valid JSON images
+STD_VALID = M.STD_IMAGES
+
+
 def valid(draw, prog: dict, t: dict, dyn: str = "id", fuel: int = 3, c: Optional[dict] = None, stack=()) -> Any:
     k = t["k"]
+    if k == "std":
+        return pick(draw, STD_VALID[t["t"]])
     if k == "str":
         return _gen_str(draw, c)
     if k == "int":
@@ -853,6 +862,8 @@ def value_for(draw, prog: dict, t: dict, fuel: int = 3, stack=()) -> Any:
 
 def simplest_value(prog: dict, t: dict, stack=()) -> Any:
     k = t["k"]
+    if k == "std":
+        return ["std", t["t"], M.STD_IMAGES[t["t"]][0]]
     if k == "str":
         return ["str", ""]
     if k == "int":
